@@ -291,7 +291,12 @@ def segment (cfg : Cfg) (a : A) (rd : Read) (evs : List Ev) : A :=
   -- what the payload read leaves in the buffer
   let a := if rd.hdrErr || !rd.hdrOk || h.nbytes ≤ 0 || h.nbytes > cfg.bufMax || rd.payErr then a
            else { a with buf := bufWrite a.buf rd.pay (min rd.avail h.nbytes.toNat) }
+  -- a client that leaves on the read side (EOF, reset, death inside a frame, unreadable length) or says DISCONNECT is no
+  -- recipient from that moment: nothing is written to, or attempted on, its connection while its departure is handled
+  let touched := evs.any (fun e => match e with
+    | .send v _ _ => v == u | .partialW v => v == u | .wfail v => v == u | _ => false)
   if broken then
+    let a := a.chk (!touched) "C07" s!"connection {u} left (EOF / reset / broken frame) but was still written to while its departure was handled"
     let a := checkAcks cfg a u false evs
     applyDepartures (checkDepartures cfg a (some u) evs) evs
   else
@@ -310,6 +315,7 @@ def segment (cfg : Cfg) (a : A) (rd : Read) (evs : List Ev) : A :=
         let a := checkDepartures cfg a (if ok then none else some u) evs
         applyDepartures (checkInfos a evs) evs
   else if t == cfg.mtDisconnect then
+    let a := a.chk (!touched) "C07" s!"connection {u} sent DISCONNECT but was still written to while its departure was handled"
     let a := checkAcks cfg a u false evs
     applyDepartures (checkDepartures cfg a (some u) evs) evs
   else if t == cfg.mtSubscribe || t == cfg.mtResume || t == cfg.mtUnsubscribe || t == cfg.mtPause then
@@ -389,6 +395,13 @@ def checkTraffic (cfg : Cfg) (a : A) (evs : List Ev) : A :=
   let tr := (sends evs).filterMap (fun p => match p.2.2.body with
     | .traffic sq sb ts cs => some (p.1, sq, sb, ts, cs) | _ => none)
   let observers := (tr.map (·.1)).eraseDups
+  -- something was handled in this interval: every subscriber of MESSAGE_TRAFFIC that can take it gets the report
+  let xs := closes evs
+  let owed := a.mods.filter (fun m => m.alive && subscribed m cfg.mtTraffic && ready a m && !a.failing m.uid && !xs.contains m.uid)
+  let a := if (a.pubR.filter (·.1 != -1)).isEmpty then a else
+    owed.foldl (fun a m =>
+      a.chk (observers.contains m.uid) "C18"
+        s!"{(a.pubR.filter (·.1 != -1)).length} message types were handled in this interval but subscriber {m.uid} got no MESSAGE_TRAFFIC") a
   observers.foldl (fun a o =>
     let mine := tr.filter (·.1 == o)
     let subsOk := (mine.map (·.2.2.1)) == (List.range mine.length).map (· + 1)
